@@ -33,7 +33,7 @@ RUN_TIMEOUT_S = 60.0
 MIN_BUDGET = 200
 
 TIERS = {
-    'quick': {'runs': 24000, 'classes': 8, 'budget_s': 80},
+    'quick': {'runs': 24000, 'classes': 8, 'budget_s': 60},
     'thorough': {'runs': 500000, 'classes': 32, 'budget_s': 1100},
 }
 
